@@ -500,8 +500,9 @@ func (p *Prog) ModuleFuncs() []*ssa.Function {
 		if fn == nil || seen[fn] || fn.Blocks == nil || fn.Synthetic != "" {
 			return
 		}
-		if p.inlined[FuncName(fn)] {
-			return // a new helper whose calls were all replaced by its body: analysed at its call sites
+		if p.inlined[FuncName(fn)] && unexportedName(fn) {
+			return // a new helper whose calls were all replaced by its body: analysed at its call sites (a new exported
+			// function is inlined into its callers too, but stays an entry point of its own)
 		}
 		seen[fn] = true
 		out = append(out, fn)
